@@ -57,7 +57,10 @@ type wholeStructLoc struct {
 type mapLoc struct{ m Term }
 
 // streamLoc: the concrete bit-stream object held in an interface value (all fields of both stream types).
-type streamLoc struct{ ref Term }
+type streamLoc struct {
+	ref   Term
+	iface Term // the interface value, when known
+}
 
 func (x *Exec) contractEnvAtEntry(st *State, fr *Frame, c *Contract) *specEnv {
 	env := &specEnv{x: x, st: st, vars: map[string]Val{}, where: "entry of " + c.Key}
@@ -103,7 +106,7 @@ func (x *Exec) checkEnsures(st *State, fr *Frame, res Val) {
 		}
 	}
 	for _, en := range c.Ensures {
-		if x.assumedOnly(en) {
+		if x.assumedOnly(en) || clauseHasTag(en, "assumed") {
 			continue
 		}
 		// split top-level conjunctions (also under an implies) into separate, smaller obligations
@@ -293,6 +296,9 @@ func splitConj(e ast.Expr) []ast.Expr {
 
 func (x *Exec) assumedOnly(cl *Clause) bool {
 	if x.onlyTag == "" || len(cl.Tags) == 0 {
+		return false
+	}
+	if len(cl.Tags) == 1 && cl.Tags[0] == "assumed" {
 		return false
 	}
 	return !clauseHasTag(cl, x.onlyTag)
@@ -941,7 +947,7 @@ func (x *Exec) evalCall(env *specEnv, n *ast.CallExpr, hint types.Type, cl *Clau
 		if fname == "forall" {
 			inner := tImplies(rng, body).S
 			// trigger: a select whose index is exactly the bound variable, when there is one
-			if m := regexp.MustCompile(`\(select ([A-Za-z_][A-Za-z0-9_.!]*) `+regexp.QuoteMeta(bv.S)+`\)`).FindString(inner); m != "" {
+			if m := regexp.MustCompile(`\(select ([A-Za-z_][A-Za-z0-9_.!]*) ` + regexp.QuoteMeta(bv.S) + `\)`).FindString(inner); m != "" {
 				inner = "(! " + inner + " :pattern (" + m + "))"
 			}
 			return Term{S: "(forall ((" + bv.S + " (_ BitVec 64))) " + inner + ")", Sort: sBool}
@@ -1167,7 +1173,7 @@ func (x *Exec) evalLoc(env *specEnv, loc string, c *Contract) Val {
 		}
 		v := x.evalTerm(env, e, nil, cl)
 		if v.Sort == sAny {
-			return streamLoc{ref: Term{S: "(any_ref_v " + v.S + ")", Sort: sRef}}
+			return streamLoc{ref: Term{S: "(any_ref_v " + v.S + ")", Sort: sRef}, iface: v}
 		}
 		return streamLoc{ref: v}
 	}
